@@ -114,8 +114,12 @@ func (w *cliWorld) checkMatching(final bool, faulty bool) {
 			}
 		}
 	}
-	// ids are never shared by two requests in flight
+	// ids are never shared by two requests in flight (C04's clause; under C05 a
+	// displaced request shows up as an operation that never returns)
 	for _, id := range sortedKeys(w.byID) {
+		if faulty {
+			break
+		}
 		qs := w.byID[id]
 		for i := 0; i < len(qs); i++ {
 			for j := i + 1; j < len(qs); j++ {
@@ -572,5 +576,13 @@ func scenarioC10Client(r *Run) {
 	if !w.finish() {
 		return
 	}
-	checkDiscipline(r, w.cEnd, w.sent, true)
+	closed := false
+	for _, c := range w.closes {
+		if c.Done {
+			closed = true
+		}
+	}
+	// the Close count is judged once Close has returned (if it hangs, for a
+	// reason that is another property's, there is nothing to count yet)
+	checkDiscipline(r, w.cEnd, w.sent, closed)
 }
